@@ -43,18 +43,33 @@ CLAIM = {
             'sharing structure.',
     'note': 'Hand model (no regeneration): a behaviour the generators do not reach is not tied; the thorough '
             'tier additionally enumerates all merge trees with <= 4 leaves over sequences of length <= 4. '
-            'Partial: the outer loop of append_all_results (AppendAllConcatStatement) is proved only per name '
-            '(append_extends_list, append_new_name_creates_list); the num_skipped_reps tail of merge_all_results '
-            'is covered by the frame theorems and one decided instance. MISC values are numbers in the model. Not '
-            'modelled: unknown type codes, numpy-scalar observations, parameter values that are not 1-D numeric '
-            'arrays (values are exact rationals of the int/binary64 numbers, so close-but-distinct floats, 1-ulp '
-            'neighbours and 2 vs 2.0 are covered exactly), JSON/pickle paths (C17). Sharing of the value/total '
-            'LIST objects inside Result objects is not expressible in the model (lists are values there): it is '
-            'checked on the code by the history oracle (operands deep-compared after every later operation) and '
-            'by the script correspondence. The non-terminating '
-            'append_all_results(self) is modelled (Fuel) but never executed on the code. Observer outputs '
-            '(get_result/mean/var divide in binary64) are compared with rtol 1e-9, everything else exactly. '
-            'Known finding: merging a never-updated MISC result resets the value.',
+            'Robustness classes: R1 element types (observations/totals/CHOICE indexes as Python numbers, numpy '
+            'int8..int64/uint8/uint16/float16/float32/float64 scalars, 0-d arrays; parameter value containers of '
+            'dtype int8/uint8/int16/int32/int64/float32/float64, lists, tuples) and R2 layout (strided, reversed, '
+            '(N,1), empty, single-element containers): the model is a function of the exact rational VALUE only, so '
+            'independence of dtype/layout is by construction in the theorems and is tied by correspondence + oracle '
+            '(the same script/case run with every representation must equal the model / first-principles result). '
+            'R3 immutability and R7 shared/long-lived objects: frame theorems merge_all_frame, '
+            'merge_never_mutates_operand (every later history), combine_never_mutates_operands, result_merge_frame; '
+            'list/array objects INSIDE a Result and the parameter containers are values in the model, so their '
+            'non-aliasing (operands, parameter objects, caller containers, union vs operand parameters in both '
+            'directions, one chunk in three accumulators, one result set merged into two objects) is oracle + '
+            'correspondence only. R4 rejected calls: theorems update_raises_iff_invalid / '
+            'rejected_update_is_invisible / merge_rejects_incompatible / merge_rejected_unchanged / '
+            'merge_all_rejected_unchanged (validation pass) / combine_rejected_unchanged + oracle (both objects '
+            'deep-compared, history continued against a twin). R5 boundaries (value 0, total 0, choice_num 1, empty '
+            'result sets, empty value lists, single combination): inside the quantifiers of the theorems; required '
+            'branches in the harness. R6 scale (values/totals x 2^-40 .. 2^40, i.e. 1e-12 .. 1e12): theorems are over '
+            'Q (scale free); harness comparisons exact or relative to the data scale (no absolute floor). '
+            'Partial: the outer loop of append_all_results (AppendAllConcatStatement) is proved only per name; the '
+            'num_skipped_reps tail of merge_all_results is covered by the frame/rejection theorems and one decided '
+            'instance; that a passed validation implies the merge loop cannot raise is proved under the hypotheses '
+            'of merge_all_pointwise only. MISC values are numbers in the model. Not modelled: unknown type codes, '
+            'parameter values that are not 1-D (rows of a 2-D array: known finding), JSON/pickle paths (C17). The '
+            'non-terminating append_all_results(self) is modelled (Fuel) but never executed on the code. Observer '
+            'outputs (get_result/mean/var divide in binary64) are compared with rtol 1e-9, everything else exactly. '
+            'Known findings: merging a never-updated MISC result resets the value; 2-D parameter values are '
+            'flattened by combine.',
 }
 
 TY = {'sum': 0, 'ratio': 1, 'misc': 2, 'choice': 3}
@@ -78,7 +93,17 @@ def fr(x):
         return Fraction(float(x))
     if isinstance(x, Fraction):
         return x
+    if isinstance(x, np.ndarray) and x.ndim == 0:
+        return fr(x.item())
     raise TypeError('not a number: %r' % (x,))
+
+
+def rsx(x):
+    """like rs(fr(x)), but never raises: non-finite / non-numeric attributes are shown as they are"""
+    try:
+        return rs(fr(x))
+    except (TypeError, ValueError, OverflowError):
+        return 'not-a-finite-number:%r' % (x,)
 
 
 def rs(q):
@@ -99,17 +124,87 @@ def pynum(q, as_float=False):
     return q.numerator / q.denominator
 
 
+# ------------------------------------------------------------------ element types (R1) and scales (R6)
+NP_TYPES = [('b', np.int8), ('B', np.uint8), ('h', np.int16), ('H', np.uint16), ('w', np.int32), ('q', np.int64),
+            ('x', np.float16), ('e', np.float32), ('d', np.float64)]
+NP_BY_LETTER = dict(NP_TYPES)
+
+
+def np_letters(q):
+    """the numpy scalar types (plus 'z' = 0-d array) that hold the rational q exactly"""
+    q = Fraction(q)
+    out = []
+    for letter, T in NP_TYPES:
+        if issubclass(T, np.integer):
+            info = np.iinfo(T)
+            if q.denominator == 1 and info.min <= q <= info.max:
+                out.append(letter)
+        else:
+            with np.errstate(all='ignore'):
+                x = T(q.numerator / q.denominator)
+            if np.isfinite(x) and Fraction(float(x)) == q:
+                out.append(letter)
+    out.append('z')
+    return out
+
+
+def choose_tag(q, k, ints_only=False):
+    """ints_only: integer types only (a CHOICE index given as a float is rejected by design)"""
+    ls = np_letters(q)
+    if ints_only:
+        ls = [c for c in ls if c in 'bBhHwqz'] or ['p']
+    return ls[k % len(ls)]
+
+
+def np_cast(q, letter):
+    """the rational q as a Python number ('p'), a numpy scalar of the given type, or a 0-d array ('z')"""
+    q = Fraction(q)
+    if letter == 'p':
+        return pynum(q)
+    if letter == 'z':
+        return np.array(pynum(q))
+    T = NP_BY_LETTER[letter]
+    x = T(int(q)) if issubclass(T, np.integer) else T(q.numerator / q.denominator)
+    assert Fraction(int(x) if issubclass(T, np.integer) else float(x)) == q, (q, letter)
+    return x
+
+
+def tag_update(rng, op, im):
+    """with some probability pass the value/total of an update op as numpy scalars (5th field)"""
+    t = op.split(',')
+    if t[0] == 'u' and len(t) == 4 and rng.chance(0.4):
+        k = rng.below(64)
+        try:
+            ints = int(im.ref(t[1])._update_type_code) == TY['choice'] and Fraction(t[2]).denominator == 1
+        except (KeyError, IndexError):
+            return op
+        return op + ',' + choose_tag(t[2], k, ints) + ('p' if t[3] == '-' else choose_tag(t[3], k // 7))
+    return op
+
+
+SCALES = [(0, 0), (0, 0), (0, 0), (-40, 0), (40, 0), (0, 40), (40, 40), (-40, -40), (20, -20), (-20, 34)]
+
+
+def pick_scale(rng):
+    """binary exponents (value, total): 2^40 ~ 1e12, 2^-40 ~ 1e-12 (powers of two keep binary64 exact)"""
+    return rng.choice(SCALES)
+
+
+def scaled(q, e):
+    return q * (Fraction(2) ** e)
+
+
 # ------------------------------------------------------------------ state of a real Result
 def res_state(r):
     res, _ = _impl()
     ty = r._update_type_code
     if ty == res.Result.CHOICETYPE:
-        value, counts = Fraction(0), [int(c) for c in np.asarray(r._value).tolist()]
+        value, counts = 0, [int(c) for c in np.asarray(r._value).tolist()]
     else:
-        value, counts = fr(r._value), []
-    return (r.name, int(ty), rs(value), tuple(counts), rs(fr(r._total)), rs(fr(r._result_sum)),
-            rs(fr(r._result_squared_sum)), int(r.num_updates), bool(r._accumulate_values_bool),
-            tuple(rs(fr(v)) for v in r._value_list), tuple(rs(fr(v)) for v in r._total_list))
+        value, counts = r._value, []
+    return (r.name, int(ty), rsx(value), tuple(counts), rsx(r._total), rsx(r._result_sum),
+            rsx(r._result_squared_sum), int(r.num_updates), bool(r._accumulate_values_bool),
+            tuple(rsx(v) for v in r._value_list), tuple(rsx(v) for v in r._total_list))
 
 
 def params_state(p):
@@ -117,7 +212,7 @@ def params_state(p):
     for k in sorted(p.parameters.keys()):
         v = p.parameters[k]
         if k in p._unpacked_parameters_set:
-            unp.append((k, tuple(rs(fr(x)) for x in np.asarray(v).tolist())))
+            unp.append((k, tuple(rs(fr(x)) for x in np.asarray(v).ravel().tolist())))
         else:
             fixed.append((k, int(v)))
     return (tuple(fixed), tuple(unp))
@@ -165,9 +260,11 @@ class Impl:
                 cn = None if t[4] == '-' else int(t[4])
                 self.rv.append(R(t[1], int(t[2]), accumulate_values=(t[3] == '1'), choice_num=cn))
             elif k == 'u':
-                v = Fraction(t[2])
-                tt = None if t[3] == '-' else pynum(Fraction(t[3]))
-                self.ref(t[1]).update(pynum(v), tt)
+                tag = t[4] if len(t) > 4 else 'pp'
+                if tag != 'pp':
+                    self.np_updates = getattr(self, 'np_updates', 0) + 1
+                tt = None if t[3] == '-' else np_cast(t[3], tag[1])
+                self.ref(t[1]).update(np_cast(t[2], tag[0]), tt)
             elif k == 'm':
                 self.ref(t[1]).merge(self.ref(t[2]))
             elif k == 'ns':
@@ -354,7 +451,7 @@ def first_diff(a, b):
 
 
 # ------------------------------------------------------------------ generators (script built while running the code)
-def gen_obs(rng, ty, cn, malformed=0.0):
+def gen_obs(rng, ty, cn, malformed=0.0, scale=None):
     """(value token, total token) of one update call"""
     if ty == TY['choice']:
         if rng.chance(malformed):
@@ -364,10 +461,14 @@ def gen_obs(rng, ty, cn, malformed=0.0):
         if cn == 0:
             return '0', '-'
         return tok(rng.below(cn)), '-'
+    ev, et = scale or (0, 0)
     if rng.chance(0.25):
         v = Fraction(rng.randint(-64, 640), 1 << rng.randint(1, 4))
+    elif rng.chance(0.1):
+        v = Fraction(0)                                   # boundary: value 0
     else:
         v = Fraction(rng.randint(-20, 200))
+    v = scaled(v, ev)
     if ty == TY['ratio']:
         if rng.chance(malformed):
             return tok(v), rng.choice(['-', '0'])
@@ -376,7 +477,7 @@ def gen_obs(rng, ty, cn, malformed=0.0):
             t = -t
         if rng.chance(0.1):
             t = t / 4
-        return tok(v), tok(t)
+        return tok(v), tok(scaled(t, et))
     if ty == TY['sum'] and rng.chance(0.2):
         return tok(v), tok(rng.randint(0, 5))           # ignored for SUM
     return tok(v), '-'
@@ -387,7 +488,10 @@ def gen_result_script(rng, long=False):
     im = Impl()
     ops = []
 
+    sc = pick_scale(rng)
+
     def do(op):
+        op = tag_update(rng, op, im)
         ops.append(op)
         im.step(op)
 
@@ -419,7 +523,7 @@ def gen_result_script(rng, long=False):
         a = rng.below(len(im.rv))
         x = rng.uniform()
         if x < 0.65:
-            v, t = gen_obs(rng, specs[a][0], specs[a][1], malformed=0.05)
+            v, t = gen_obs(rng, specs[a][0], specs[a][1], malformed=0.05, scale=sc)
             do('u,r%d,%s,%s' % (a, v, t))
         elif x < 0.9:
             b = rng.below(len(im.rv))
@@ -435,6 +539,7 @@ def gen_result_script(rng, long=False):
     for _ in range(2):
         if im.rv:
             do('eq,r%d,r%d' % (rng.below(len(im.rv)), rng.below(len(im.rv))))
+    im.scale = sc
     return ops, im
 
 
@@ -443,7 +548,10 @@ def gen_sim_script(rng, long=False):
     im = Impl()
     ops = []
 
+    sc = pick_scale(rng)
+
     def do(op):
+        op = tag_update(rng, op, im)
         ops.append(op)
         im.step(op)
 
@@ -462,7 +570,7 @@ def gen_sim_script(rng, long=False):
         do('nr,%s,%d,%d,%s' % (nm, ty, 1 if acc else 0, str(cn) if ty == 3 else '-'))
         a = len(im.rv) - 1
         for _ in range(rng.randint(0, 4)):
-            v, t = gen_obs(rng, ty, cn)
+            v, t = gen_obs(rng, ty, cn, scale=sc)
             do('u,r%d,%s,%s' % (a, v, t))
         return a
 
@@ -503,7 +611,7 @@ def gen_sim_script(rng, long=False):
                 r = im.sims[si]._results[nm][-1]
                 ty = int(r._update_type_code)
                 cn = len(r._value) if ty == 3 else 0
-                v, t = gen_obs(rng, ty, cn)
+                v, t = gen_obs(rng, ty, cn, scale=sc)
                 do('u,s%d.%s.%s,%s,%s' % (si, nm, rng.choice(['L', '0']), v, t))
         else:
             nm = rng.choice(names)
@@ -513,20 +621,59 @@ def gen_sim_script(rng, long=False):
         for nm in list(sm._results.keys())[:3]:
             do('g,s%d.%s.L' % (si, nm))
             do('mn,s%d.%s.L' % (si, nm))
+    im.scale = sc
     return ops, im
 
 
+ARRAY_KINDS = {'i': np.int64, 'f': np.float64, 'b': np.int8, 'B': np.uint8, 'h': np.int16, 'w': np.int32,
+               'e': np.float32}
+
+
+def array_letters(qs):
+    """the container kinds (R1/R2) able to hold these exact values: dtypes, Python list / tuple,
+    's' non-contiguous (strided) view, 'r' reversed view of a reversed copy, 'c' (N,1) column"""
+    out = []
+    for letter, T in ARRAY_KINDS.items():
+        ok = True
+        for q in qs:
+            if issubclass(T, np.integer):
+                info = np.iinfo(T)
+                ok = ok and q.denominator == 1 and info.min <= q <= info.max
+            else:
+                x = T(q.numerator / q.denominator)
+                ok = ok and bool(np.isfinite(x)) and Fraction(float(x)) == q
+        if ok:
+            out.append(letter)
+    return out + ['l', 't', 's', 'r', 'c']
+
+
 def make_array(tokens, dtype=None):
-    """numpy array of an unpacked parameter from exact value tokens; dtype 'i' (int64) / 'f' (binary64);
-    default: int when every value is integral"""
+    """the value container of an unpacked parameter from exact value tokens (see array_letters);
+    default: int64 when every value is integral, else binary64"""
     qs = [Fraction(x) for x in tokens]
     if dtype is None:
         dtype = 'i' if all(q.denominator == 1 for q in qs) else 'f'
-    if dtype == 'i':
-        return np.array([int(q) for q in qs], dtype=int)
-    vals = [q.numerator / q.denominator for q in qs]
-    assert all(Fraction(v) == q for v, q in zip(vals, qs)), 'value not a binary64 number'
-    return np.array(vals, dtype=float)
+    if dtype in ('l', 't'):
+        vals = [pynum(q) for q in qs]
+        return vals if dtype == 'l' else tuple(vals)
+    if dtype in ('s', 'r', 'c'):
+        base = make_array(tokens, None)
+        if dtype == 's':                      # every second element of a longer buffer: not contiguous
+            buf = np.zeros(2 * len(base) + 1, dtype=base.dtype)
+            buf[::2][:len(base)] = base
+            out = buf[::2][:len(base)]
+            assert len(base) < 2 or not out.flags['C_CONTIGUOUS']
+            return out
+        if dtype == 'r':
+            return base[::-1].copy()[::-1]    # negative stride
+        return base.reshape(-1, 1)            # (N,1): each "value" is a one-element row
+    T = ARRAY_KINDS[dtype]
+    if issubclass(T, np.integer):
+        out = np.array([int(q) for q in qs], dtype=T)
+    else:
+        out = np.array([q.numerator / q.denominator for q in qs], dtype=T)
+    assert [fr(x) for x in out.tolist()] == qs, 'value not representable in the container'
+    return out
 
 
 def value_pool(rng):
@@ -568,9 +715,18 @@ def pick_values(rng, pool, forced, dup=0.06):
         v = rng.choice(pool)
         if v not in vals or rng.chance(dup):      # rare duplicate value (first match wins in the code)
             vals.append(v)
+    if rng.chance(0.03):
+        vals = []                                 # boundary: no value at all
     dt = forced
     if dt is None:
         dt = 'i' if all(v.denominator == 1 for v in vals) and rng.chance(0.6) else 'f'
+    if rng.chance(0.45):                          # R1/R2: another dtype / container / layout for the same values
+        cands = array_letters(vals)
+        if forced == 'f':                         # keep float pools float (the int twin is another value class)
+            cands = [c for c in cands if c in ('f', 'e', 's', 'r', 'l', 't', 'c')]
+            if any(v.denominator == 1 for v in vals):
+                cands = [c for c in cands if c in ('f', 'e')]
+        dt = rng.choice(cands)
     return vals, dt
 
 
@@ -578,7 +734,10 @@ def gen_combine_script(rng, long=False):
     im = Impl()
     ops = []
 
+    sc = pick_scale(rng)
+
     def do(op):
+        op = tag_update(rng, op, im)
         ops.append(op)
         im.step(op)
 
@@ -616,7 +775,7 @@ def gen_combine_script(rng, long=False):
                 do('nr,%s,%d,%d,%s' % (nm, ty, 1 if acc else 0, str(cn) if ty == 3 else '-'))
                 a = len(im.rv) - 1
                 for _ in range(rng.randint(0, 3)):
-                    v, t = gen_obs(rng, ty, cn)
+                    v, t = gen_obs(rng, ty, cn, scale=sc)
                     do('u,r%d,%s,%s' % (a, v, t))
                 do('ap,%d,r%d' % (s, a))
     do('cb,0,1')
@@ -628,11 +787,12 @@ def gen_combine_script(rng, long=False):
             for j in range(min(len(lst), 2)):
                 ty = int(lst[j]._update_type_code)
                 cn = len(lst[j]._value) if ty == 3 else 0
-                v, t = gen_obs(rng, ty, cn)
+                v, t = gen_obs(rng, ty, cn, scale=sc)
                 do('u,s2.%s.%d,%s,%s' % (nm, j, v, t))
             do('g,s2.%s.L' % nm)
         if rng.chance(0.3):
             do('ma,2,0')
+    im.scale = sc
     return ops, im
 
 
@@ -675,9 +835,15 @@ def make_result(ty, acc, cn, name='x'):
     return res.Result(name, ty, accumulate_values=acc, choice_num=(cn if ty == TY['choice'] else None))
 
 
-def feed(r, obs):
-    for v, t in obs:
-        r.update(pynum(Fraction(v)), None if t == '-' else pynum(Fraction(t)))
+def feed(r, obs, np_salt=None):
+    """update r with the observations; np_salt: pass values/totals as numpy scalars of rotating types"""
+    for i, (v, t) in enumerate(obs):
+        if np_salt is None:
+            r.update(pynum(Fraction(v)), None if t == '-' else pynum(Fraction(t)))
+        else:
+            k = np_salt + i
+            ints = int(r._update_type_code) == TY['choice'] and Fraction(v).denominator == 1
+            r.update(np_cast(v, choose_tag(v, k, ints)), None if t == '-' else np_cast(t, choose_tag(t, k // 3)))
     return r
 
 
@@ -720,15 +886,15 @@ def probe_obs(ty, cn):
     return (0, None) if ty == TY['choice'] else (1, 2)
 
 
-def eval_tree_impl(t, ty, acc, cn, obs, name='x', log=None):
+def eval_tree_impl(t, ty, acc, cn, obs, name='x', log=None, np_salt=None):
     """evaluates the merge tree on real objects; every merged-in operand is snapshotted before its merge
     and compared again after every later merge of the evaluation"""
     top = log is None
     log = MergeLog() if top else log
     if t[0] == 'L':
-        return feed(make_result(ty, acc, cn, name), obs[t[1]:t[2]])
-    a = eval_tree_impl(t[1], ty, acc, cn, obs, name, log)
-    b = eval_tree_impl(t[2], ty, acc, cn, obs, name, log)
+        return feed(make_result(ty, acc, cn, name), obs[t[1]:t[2]], None if np_salt is None else np_salt + t[1])
+    a = eval_tree_impl(t[1], ty, acc, cn, obs, name, log, np_salt)
+    b = eval_tree_impl(t[2], ty, acc, cn, obs, name, log, np_salt)
     snap = deep_state(b)
     a.merge(b)
     log.merged(a, b, snap)
@@ -744,11 +910,13 @@ def expected_stats(ty, cn, obs):
     n = len(obs)
     vs = [Fraction(v) for v, _ in obs]
     if ty == TY['sum']:
-        return dict(value=sum(vs), total=Fraction(0), n=n, rsum=sum(vs), rsq=sum(v * v for v in vs))
+        return dict(value=sum(vs), total=Fraction(0), n=n, rsum=sum(vs), rsq=sum(v * v for v in vs),
+                    rabs=sum(abs(v) for v in vs))
     if ty == TY['ratio']:
         ts = [Fraction(t) for _, t in obs]
         q = [v / t for v, t in zip(vs, ts)]
-        return dict(value=sum(vs), total=sum(ts), n=n, rsum=sum(q), rsq=sum(x * x for x in q))
+        return dict(value=sum(vs), total=sum(ts), n=n, rsum=sum(q), rsq=sum(x * x for x in q),
+                    rabs=sum(abs(x) for x in q))
     if ty == TY['choice']:
         c = [0] * cn
         for v in vs:
@@ -784,16 +952,17 @@ def check_stats(r, ty, cn, obs, acc):
     if e['n'] > 0:
         mean = e['rsum'] / e['n']
         var = e['rsq'] / e['n'] - mean * mean
-        if not core.close(r.get_result_mean(), float(mean), rtol=1e-12, atol=1e-12):
+        # tolerances relative to the scale of the data (R6): no absolute floor
+        if abs(r.get_result_mean() - float(mean)) > 1e-12 * float(e.get('rabs', abs(e['rsum'])) / e['n']):
             return 'mean %r expected %r' % (r.get_result_mean(), float(mean))
-        scale = max(1.0, float(e['rsq'] / e['n']))
+        scale = float(e['rsq'] / e['n'])
         if abs(r.get_result_var() - float(var)) > 1e-12 * scale:
             return 'variance %r expected %r' % (r.get_result_var(), float(var))
         g = r.get_result()
         if ty == TY['sum'] and fr(g) != e['value']:
             return 'get_result %r expected %s' % (g, e['value'])
         if ty == TY['ratio'] and e['total'] != 0 and \
-                not core.close(float(g), float(e['value'] / e['total']), rtol=1e-12, atol=1e-15):
+                abs(float(g) - float(e['value'] / e['total'])) > 1e-12 * abs(float(e['value'] / e['total'])):
             return 'get_result %r expected %s' % (g, e['value'] / e['total'])
         if ty == TY['choice']:
             exp = [Fraction(c) / e['total'] for c in e['counts']]
@@ -828,14 +997,15 @@ def o_partition(case):
     ty, acc, cn = case['ty'], case['acc'], case['cn']
     obs = [tuple(o) for o in case['obs']]
     t = tuplify(case['tree'])
-    tn = TYN[ty]
+    salt = case.get('np')
+    tn = TYN[ty] + ('' if salt is None else ':np-scalars')
     try:
-        whole = feed(make_result(ty, acc, cn), obs)
+        whole = feed(make_result(ty, acc, cn), obs, salt)
     except Exception as e:
         return '%s:update:exception:%s' % (tn, type(e).__name__), repr(e)[:300]
     log = MergeLog()
     try:
-        merged = eval_tree_impl(t, ty, acc, cn, obs, log=log)
+        merged = eval_tree_impl(t, ty, acc, cn, obs, log=log, np_salt=salt)
     except OperandMutated as e:
         return '%s:merge:operand-mutated' % tn, str(e)
     except Exception as e:
@@ -885,11 +1055,13 @@ def o_history(case):
     compare incl. list contents) and share no list/array with the accumulator; then the SAME chunk objects are
     merged again in a second grouping and must give the single-object result"""
     ty, acc, cn = case['ty'], case['acc'], case['cn']
-    tn = '%s:acc=%d' % (TYN[ty], 1 if acc else 0)
+    salt = case.get('np')
+    tn = '%s:acc=%d%s' % (TYN[ty], 1 if acc else 0, '' if salt is None else ':np-scalars')
     chunks = [[tuple(o) for o in c] for c in case['chunks']]
     extras = {int(k): [tuple(o) for o in v] for k, v in (case.get('extras') or {}).items()}
     try:
-        objs = [feed(make_result(ty, acc, cn), c) for c in chunks]
+        objs = [feed(make_result(ty, acc, cn), c, None if salt is None else salt + 5 * i)
+                for i, c in enumerate(chunks)]
         snaps = [deep_state(o) for o in objs]
         accu = make_result(ty, acc, cn)
         seen = []                                   # observation sequence the accumulator stands for
@@ -913,7 +1085,7 @@ def o_history(case):
             if r:
                 return r
             for ob in extras.get(i, []):
-                accu.update(pynum(Fraction(ob[0])), None if ob[1] == '-' else pynum(Fraction(ob[1])))
+                feed(accu, [ob], None if salt is None else salt + 11 * i)
                 seen = seen + [ob]
                 r = verify(i, 'update after merge #%d' % i)
                 if r:
@@ -963,9 +1135,24 @@ def o_history(case):
             whole = feed(make_result(ty, acc, cn), allobs)
             if res_state(regrouped) != res_state(whole) or not (regrouped == whole):
                 return '%s:regrouped-differs' % tn, 'regrouped merge differs from the single object'
+        # R7: the same chunk objects merged into a third accumulator in the opposite order
+        third = make_result(ty, acc, cn)
+        for c in reversed(objs):
+            third.merge(c)
+        r = verify(len(objs) - 1, 'merging the chunks into a third accumulator in reverse order')
+        if r:
+            return r
+        rev = [o for c in reversed(chunks) for o in c]
+        if ty != TY['misc']:
+            d = check_stats(third, ty, cn, rev, acc)
+            if d:
+                return '%s:shared-operand-differs' % tn, 'reverse-order accumulator: ' + d
+        elif chunks and chunks[0] and fr(third._value) != Fraction(chunks[0][-1][0]):
+            return '%s:shared-operand-differs' % tn, 'reverse-order accumulator: MISC value %s' % third._value
         # the histories go on: one more update of each accumulator
         accu.update(*probe_obs(ty, cn))
         regrouped.update(*probe_obs(ty, cn))
+        third.update(*probe_obs(ty, cn))
         r = verify(len(objs) - 1, 'a later update of the accumulators')
         if r:
             return r
@@ -974,7 +1161,7 @@ def o_history(case):
     return None
 
 
-def build_sim(specs, chunks, prefix=None):
+def build_sim(specs, chunks, prefix=None, np_salt=None):
     """a SimulationResults with one Result per name holding the chunk's observations, optionally
     behind earlier results of the same name (results of other parameter variations)"""
     res, _ = _impl()
@@ -982,7 +1169,7 @@ def build_sim(specs, chunks, prefix=None):
     for nm, ty, acc, cn in specs:
         for ob in (prefix or {}).get(nm, []):
             s.append_result(feed(make_result(ty, acc, cn, nm), [tuple(o) for o in ob]))
-        s.append_result(feed(make_result(ty, acc, cn, nm), chunks[nm]))
+        s.append_result(feed(make_result(ty, acc, cn, nm), chunks[nm], np_salt))
     return s
 
 
@@ -1004,11 +1191,15 @@ def o_mergeall(case):
 
     def ev(t, leftmost=False):
         if t[0] == 'L':
-            return build_sim(specs, {nm: obs[nm][t[1]:t[2]] for nm in obs}, prefix if leftmost else None)
+            x = build_sim(specs, {nm: obs[nm][t[1]:t[2]] for nm in obs}, prefix if leftmost else None,
+                          None if case.get('np') is None else case['np'] + t[1])
+            x._c06_obs = {nm: list(obs[nm][t[1]:t[2]]) for nm in obs}
+            return x
         a = ev(t[1], leftmost)
         b = ev(t[2])
         operands.append((b, sim_state(b), len(a) == 0))
         a.merge_all_results(b)
+        a._c06_obs = {nm: a._c06_obs[nm] + b._c06_obs[nm] for nm in obs}
         return a
 
     try:
@@ -1051,6 +1242,29 @@ def o_mergeall(case):
         d = check_stats(lst[-1], ty, cn, obs[nm], acc)
         if d:
             return '%s:merged-differs' % TYN[ty], '%s: %s' % (nm, d)
+    # R7: every merged-in operand is used a second time, for another accumulating object
+    try:
+        second = res.SimulationResults()
+        for b, _, _ in operands:
+            second.merge_all_results(b)
+        r = operands_ok('when it was merged into a second object')
+        if r:
+            return r
+        if operands:
+            for nm, ty, acc, cn in specs:
+                exp = []
+                for b, _, _ in operands:
+                    exp += getattr(b, '_c06_obs')[nm]
+                if ty == TY['misc']:
+                    last = getattr(operands[-1][0], '_c06_obs')[nm]
+                    if last and fr(second[nm][-1]._value) != Fraction(last[-1][0]):
+                        return 'misc:second-use-differs', '%s: MISC value %s' % (nm, second[nm][-1]._value)
+                    continue
+                d = check_stats(second[nm][-1], ty, cn, exp, acc)
+                if d:
+                    return '%s:second-use-differs' % TYN[ty], '%s: %s' % (nm, d)
+    except Exception as e:
+        return 'exception:%s' % type(e).__name__, repr(e)[:300]
     # later operations on the accumulating object: updates through it and one more merge
     try:
         for nm, ty, acc, cn in specs:
@@ -1097,22 +1311,50 @@ def combo_key(combo):
     return ','.join(tok(Fraction(c)) for c in combo)
 
 
-def build_grid_sim(fixed, names, grid, dtypes, specs, cells):
+def build_grid_sim(fixed, names, grid, dtypes, specs, cells, np_salt=None, use_add=False):
     """a result set over the grid (value tokens, exact) with one Result per combination, in the order of
-    get_unpacked_params_list (first parameter slowest)"""
+    get_unpacked_params_list (first parameter slowest); returns (object, the caller's value containers).
+    use_add: parameters are handed over with add() (no copy is made by the library)"""
     res, par = _impl()
-    d = dict(fixed)
+    containers = {}
     for j, (nm, vals) in enumerate(zip(names, grid)):
-        d[nm] = make_array([str(v) for v in vals], dtypes[j] if dtypes else None)
-    p = par.SimulationParameters.create(d)
+        containers[nm] = make_array([str(v) for v in vals], dtypes[j] if dtypes else None)
+    if use_add:
+        p = par.SimulationParameters()
+        for k, v in fixed:
+            p.add(k, v)
+        for nm in names:
+            p.add(nm, containers[nm])
+    else:
+        d = dict(fixed)
+        d.update(containers)
+        p = par.SimulationParameters.create(d)
     for nm in names:
         p.set_unpack_parameter(nm)
     s = res.SimulationResults()
     s.set_parameters(p)
     for rn, ty, acc, cn in specs:
         for combo in itertools.product(*grid):
-            s.append_result(feed(make_result(ty, acc, cn, rn), [tuple(o) for o in cells[rn][combo_key(combo)]]))
-    return s
+            s.append_result(feed(make_result(ty, acc, cn, rn), [tuple(o) for o in cells[rn][combo_key(combo)]],
+                                 np_salt))
+    return s, containers
+
+
+def params_snapshot(p):
+    """deep copy of what a SimulationParameters object holds (values as exact rationals, container types)"""
+    out = {}
+    for k, v in p.parameters.items():
+        if isinstance(v, (list, tuple, np.ndarray)):
+            a = np.asarray(v)
+            out[k] = (type(v).__name__, str(a.dtype), a.shape, tuple(rs(fr(x)) for x in a.ravel().tolist()))
+        else:
+            out[k] = ('scalar', rs(fr(v)))
+    return (out, tuple(sorted(p._unpacked_parameters_set)))
+
+
+def container_snapshot(c):
+    a = np.asarray(c)
+    return (type(c).__name__, str(a.dtype), a.shape, tuple(rs(fr(x)) for x in a.ravel().tolist()))
 
 
 def grid_kind(grids):
@@ -1140,15 +1382,46 @@ def o_combine(case):
     fixed = [tuple(x) for x in case['fixed']]
     tys = sorted({TYN[ty] for _, ty, _, _ in specs})
     pre = '%s:%s' % (grid_kind(grids), '+'.join(tys))
+    salt = case.get('np')
+    use_add = bool(case.get('use_add'))
+    if salt is not None:
+        pre += ':np-scalars'
+    layouts = ''.join(d or '' for d in dtypes)
+    if any(ch not in 'if' for ch in layouts):
+        pre += ':containers'
+    empty = [any(len(vs) == 0 for vs in g) for g in grids]
     try:
-        s1 = build_grid_sim(fixed, names, grids[0], dtypes[0], specs, cells[0])
-        s2 = build_grid_sim(fixed, names, grids[1], dtypes[1], specs, cells[1])
+        s1, cont1 = build_grid_sim(fixed, names, grids[0], dtypes[0], specs, cells[0], salt, use_add)
+        s2, cont2 = build_grid_sim(fixed, names, grids[1], dtypes[1], specs, cells[1], salt, use_add)
         snap1, snap2 = sim_state(s1), sim_state(s2)
+        psnap = [params_snapshot(s1.params), params_snapshot(s2.params)]
+        csnap = [{k: container_snapshot(v) for k, v in c.items()} for c in (cont1, cont2)]
+    except Exception as e:
+        return '%s:setup-exception:%s' % (pre, type(e).__name__), repr(e)[:300]
+
+    def inputs_ok(when):
+        if sim_state(s1) != snap1 or sim_state(s2) != snap2:
+            return '%s:operand-mutated' % pre, 'an operand of combine_simulation_results changed %s' % when
+        if [params_snapshot(s1.params), params_snapshot(s2.params)] != psnap:
+            return '%s:params-mutated' % pre, 'the parameters of an operand changed %s' % when
+        if [{k: container_snapshot(v) for k, v in c.items()} for c in (cont1, cont2)] != csnap:
+            return '%s:value-list-mutated' % pre, "the caller's parameter value containers changed %s" % when
+        return None
+
+    try:
         u = res.combine_simulation_results(s1, s2)
     except BaseException as e:
         if isinstance(e, (KeyboardInterrupt, SystemExit, MemoryError)):
             raise
+        if empty[0] != empty[1] and isinstance(e, RuntimeError):
+            # one operand was "simulated" over an empty grid and holds no result at all: rejected; nothing moved
+            return inputs_ok('by the rejected call')
         return '%s:exception:%s' % (pre, type(e).__name__), repr(e)[:300]
+    if empty[0] != empty[1]:
+        return '%s:empty-grid-not-rejected' % pre, 'operands with different result names were combined'
+    r0 = inputs_ok('by the call')
+    if r0:
+        return r0
     q = [[[Fraction(str(v)) for v in vs] for vs in g] for g in grids]
     ugrid = [sorted(set(a) | set(b)) for a, b in zip(q[0], q[1])]
     for nm, vals in zip(names, ugrid):
@@ -1158,6 +1431,11 @@ def o_combine(case):
     combos = [[]]
     for vals in ugrid:
         combos = [c + [v] for c in combos for v in vals]
+    if empty[0] and empty[1]:
+        # neither operand holds a result (both were "simulated" over an empty grid): nothing to combine
+        if u.get_result_names():
+            return '%s:results-invented' % pre, 'results %r out of two empty result sets' % u.get_result_names()
+        return inputs_ok('by the call')
     for rn, ty, acc, cn in specs:
         lst = u._results.get(rn, [])
         if len(lst) != len(combos):
@@ -1179,12 +1457,225 @@ def o_combine(case):
             else:
                 r.update(1, 2)
             r.merge(feed(make_result(ty, False, cn, rn), [('0', '-')] if ty == TY['choice'] else [('1', '2')]))
-    if sim_state(s1) != snap1 or sim_state(s2) != snap2:
-        return '%s:operand-mutated' % pre, 'an operand of combine_simulation_results changed'
+    r0 = inputs_ok('when the results of the union were updated/merged')
+    if r0:
+        return r0
+    # R3/R7: the union must not alias the operands' parameter values, in either direction
+    usnap = params_snapshot(u.params)
+    ustate = sim_state(u)
+    try:
+        for nm in names:
+            for s_op in (s1, s2):
+                v = s_op.params[nm]
+                if isinstance(v, np.ndarray) and v.size:
+                    v.flat[0] = v.flat[0] + 1          # the operand's parameters change after the combination
+    except Exception as e:
+        return '%s:setup-exception:%s' % (pre, type(e).__name__), repr(e)[:300]
+    if params_snapshot(u.params) != usnap or sim_state(u) != ustate:
+        return '%s:union-aliases-operand-params' % pre, 'changing an operand\'s parameter values changed the union'
+    psnap2 = [params_snapshot(s1.params), params_snapshot(s2.params)]
+    for nm in names:
+        v = u.params[nm]
+        if isinstance(v, np.ndarray) and v.size:
+            v.flat[0] = v.flat[0] + 7
+    if [params_snapshot(s1.params), params_snapshot(s2.params)] != psnap2:
+        return '%s:union-aliases-operand-params' % pre, 'changing the union\'s parameter values changed an operand'
+    return None
+
+
+def sim_deep_state(s):
+    return (tuple((nm, tuple(deep_state(r) for r in lst)) for nm, lst in s._results.items()),
+            params_snapshot(s.params))
+
+
+def o_rejected(case):
+    """R4: a call that must be rejected raises, leaves BOTH objects exactly as they were, and the history
+    continues as for objects that never saw the call"""
+    res, par = _impl()
+    kind, why = case['kind'], case['why']
+    pre = 'rejected:%s:%s' % (kind, why)
+    salt = case.get('np')
+    try:
+        if kind == 'update':
+            ty, acc, cn = case['ty'], case['acc'], case['cn']
+            r = feed(make_result(ty, acc, cn), [tuple(o) for o in case['before']], salt)
+            twin = feed(make_result(ty, acc, cn), [tuple(o) for o in case['before']])
+            snap = deep_state(r)
+            bad = tuple(case['bad'])
+            try:
+                feed(r, [bad], salt)
+                return pre + ':not-raised', 'update%r was accepted' % (bad,)
+            except Exception:
+                pass
+            if deep_state(r) != snap:
+                return pre + ':object-changed', '%r -> %r' % (snap[0], res_state(r))
+            feed(r, [tuple(o) for o in case['after']], salt)
+            feed(twin, [tuple(o) for o in case['after']])
+            if deep_state(r) != deep_state(twin):
+                return pre + ':history-differs', '%r vs %r' % (res_state(r), res_state(twin))
+            return None
+        if kind == 'merge':
+            def mk(spec, ob):
+                nm, ty, acc, cn = spec
+                return feed(make_result(ty, acc, cn, nm), [tuple(o) for o in ob], salt)
+            a, b = mk(case['a'], case['obs_a']), mk(case['b'], case['obs_b'])
+            twin = mk(case['a'], case['obs_a'])
+            sa, sb = deep_state(a), deep_state(b)
+            try:
+                a.merge(b)
+                return pre + ':not-raised', 'merge of incompatible results was accepted'
+            except Exception:
+                pass
+            if deep_state(a) != sa or deep_state(b) != sb:
+                return pre + ':object-changed', '%r / %r' % (res_state(a), res_state(b))
+            good = mk(case['a'], case['obs_g'])
+            a.merge(good)
+            twin.merge(mk(case['a'], case['obs_g']))
+            if deep_state(a) != deep_state(twin):
+                return pre + ':history-differs', '%r vs %r' % (res_state(a), res_state(twin))
+            return None
+        if kind == 'merge_all':
+            def mks(specs, obs):
+                x = res.SimulationResults()
+                for nm, ty, acc, cn in specs:
+                    x.append_result(feed(make_result(ty, acc, cn, nm), [tuple(o) for o in obs[nm]], salt))
+                return x
+            a, b = mks(case['specs_a'], case['obs_a']), mks(case['specs_b'], case['obs_b'])
+            twin = mks(case['specs_a'], case['obs_a'])
+            sa, sb = sim_deep_state(a), sim_deep_state(b)
+            try:
+                a.merge_all_results(b)
+                return pre + ':not-raised', 'merge_all_results of incompatible result sets was accepted'
+            except Exception:
+                pass
+            if sim_deep_state(a) != sa or sim_deep_state(b) != sb:
+                return pre + ':object-changed', 'self or other changed although merge_all_results raised'
+            a.merge_all_results(mks(case['specs_a'], case['obs_g']))
+            twin.merge_all_results(mks(case['specs_a'], case['obs_g']))
+            if sim_deep_state(a) != sim_deep_state(twin):
+                return pre + ':history-differs', 'after the rejected call the result set behaves differently'
+            return None
+        if kind == 'combine':
+            spec = [['a', 0, False, 1]]
+            def mkc(fixed, pnames, grid, resname):
+                cells = {resname: {combo_key(c): [['1', '-']] for c in itertools.product(*grid)}}
+                return build_grid_sim(fixed, pnames, grid, None, [[resname, 0, False, 1]], cells)[0]
+            s1 = mkc([tuple(x) for x in case['fixed1']], case['pnames1'], case['grid1'], case['res1'])
+            s2 = mkc([tuple(x) for x in case['fixed2']], case['pnames2'], case['grid2'], case['res2'])
+            sa, sb = sim_deep_state(s1), sim_deep_state(s2)
+            try:
+                res.combine_simulation_results(s1, s2)
+                return pre + ':not-raised', 'operands with different parameters / results were combined'
+            except Exception:
+                pass
+            if sim_deep_state(s1) != sa or sim_deep_state(s2) != sb:
+                return pre + ':object-changed', 'an operand changed although combine_simulation_results raised'
+            u = res.combine_simulation_results(s1, s1)
+            if [r.num_updates for r in u[case['res1']]] != [2 * r.num_updates for r in s1[case['res1']]]:
+                return pre + ':history-differs', 'operand unusable after the rejected call'
+            return None
+    except Exception as e:
+        return pre + ':exception:%s' % type(e).__name__, repr(e)[:300]
+    return pre + ':bad-case', 'unknown kind'
+
+
+def gen_rejected_case(rng):
+    kind = rng.choice(['update', 'update', 'merge', 'merge', 'merge_all', 'merge_all', 'combine'])
+    sc = pick_scale(rng)
+    salt = rng.below(1000) if rng.chance(0.4) else None
+    if kind == 'update':
+        ty = rng.choice([1, 1, 3, 3])
+        cn = rng.randint(1, 4)
+        acc = rng.chance(0.5)
+        if ty == 1:
+            why, bad = rng.choice([('ratio-no-total', ['5', '-']), ('ratio-total-0', ['5', '0']),
+                                   ('ratio-total-0', ['0', '0'])])
+        else:
+            why, bad = rng.choice([('choice-index-high', [str(cn + rng.below(3)), '-']),
+                                   ('choice-index-low', [str(-cn - 1), '-']), ('choice-not-int', ['1/2', '-'])])
+        return {'kind': kind, 'why': why, 'ty': ty, 'acc': acc, 'cn': cn, 'bad': bad, 'np': salt,
+                'before': gen_obs_list(rng, ty, cn, rng.randint(0, 3), sc),
+                'after': gen_obs_list(rng, ty, cn, rng.randint(1, 3), sc)}
+    if kind == 'merge':
+        ty = rng.choice([0, 1, 2, 3])
+        cn = rng.randint(1, 4)
+        acc = rng.chance(0.5)
+        a = ['x', ty, acc, cn]
+        why = rng.choice(['type', 'name', 'accumulate', 'choice_num'] if ty == 3 else ['type', 'name', 'accumulate'])
+        if why == 'type':
+            b = ['x', (ty + rng.randint(1, 3)) % 4, acc, cn]
+        elif why == 'name':
+            b = ['y', ty, acc, cn]
+        elif why == 'accumulate':
+            a, b = ['x', ty, True, cn], ['x', ty, False, cn]
+        else:
+            b = ['x', ty, acc, rng.choice([c for c in (1, 2, 3, 4, 5) if c != cn])]
+        return {'kind': kind, 'why': why, 'a': a, 'b': b, 'np': salt,
+                'obs_a': gen_obs_list(rng, a[1], a[3], rng.randint(0, 3), sc),
+                'obs_b': gen_obs_list(rng, b[1], b[3], rng.randint(1, 3), sc),
+                'obs_g': gen_obs_list(rng, a[1], a[3], rng.randint(1, 3), sc)}
+    if kind == 'merge_all':
+        names = ['a', 'b', 'c'][:rng.randint(2, 3)]
+        specs = [[nm, rng.choice([0, 1, 2, 3]), rng.chance(0.3), rng.randint(1, 4)] for nm in names]
+        why = rng.choice(['missing-name', 'type-in-later-name', 'choice_num-in-later-name', 'nsr-type', 'empty-other'])
+        specs_b = [list(x) for x in specs]
+        if why == 'missing-name':
+            del specs_b[rng.randint(1, len(specs_b) - 1)]
+        elif why == 'type-in-later-name':
+            j = rng.randint(1, len(specs_b) - 1)
+            specs_b[j][1] = (specs_b[j][1] + 1) % 4
+        elif why == 'choice_num-in-later-name':
+            j = rng.randint(1, len(specs_b) - 1)
+            specs[j][1] = specs_b[j][1] = 3
+            specs_b[j][3] = specs[j][3] + 1
+        elif why == 'nsr-type':
+            specs_b.append([NSR, 1, False, 1])
+        else:
+            specs_b = []
+        obs = lambda sp: {nm: gen_obs_list(rng, ty, cn, rng.randint(1, 3), sc) for nm, ty, acc, cn in sp}
+        return {'kind': kind, 'why': why, 'specs_a': specs, 'specs_b': specs_b, 'np': salt,
+                'obs_a': obs(specs), 'obs_b': obs(specs_b), 'obs_g': obs(specs)}
+    why = rng.choice(['fixed-value', 'fixed-names', 'unpacked-names', 'result-names'])
+    c = {'kind': kind, 'why': why, 'fixed1': [['f', 3]], 'fixed2': [['f', 3]], 'pnames1': ['p'], 'pnames2': ['p'],
+         'grid1': [['1', '2']], 'grid2': [['2', '3']], 'res1': 'a', 'res2': 'a'}
+    if why == 'fixed-value':
+        c['fixed2'] = [['f', 4]]
+    elif why == 'fixed-names':
+        c['fixed2'] = [['f', 3], ['g', 1]]
+    elif why == 'unpacked-names':
+        c['pnames2'] = ['q']
+    else:
+        c['res2'] = 'b'
+    return c
+
+
+def o_combine_2d(case):
+    """unpacked parameter whose values are the ROWS of a 2-D array (vectors as values): the union grid must
+    be made of rows and every simulated row must keep its results (known finding: the grid is flattened)"""
+    res, par = _impl()
+    sims = []
+    for rows, base in ((case['rows1'], 10), (case['rows2'], 100)):
+        p = par.SimulationParameters.create({'p': np.array(rows), 'f': 3})
+        p.set_unpack_parameter('p')
+        x = res.SimulationResults()
+        x.set_parameters(p)
+        for i in range(len(rows)):
+            x.append_result(res.Result.create('a', res.Result.SUMTYPE, base + i))
+        sims.append(x)
+    try:
+        u = res.combine_simulation_results(sims[0], sims[1])
+    except Exception as e:
+        return 'values-2d:exception:%s' % type(e).__name__, repr(e)[:200]
+    want = sorted({tuple(r) for r in case['rows1']} | {tuple(r) for r in case['rows2']})
+    got = np.asarray(u.params['p'])
+    if got.ndim != 2 or sorted(tuple(r) for r in got.tolist()) != [tuple(w) for w in want]:
+        return 'values-2d:union-flattened', 'union grid %r for the rows %r' % (got.tolist(), want)
     return None
 
 
 ORACLES = {
+    'combine_simulation_results/2d': o_combine_2d,
+    'rejected-call': o_rejected,
     'Result.merge': o_partition,
     'Result.merge/history': o_history,
     'SimulationResults.merge_all_results': o_mergeall,
@@ -1214,11 +1705,11 @@ def replay(ctx, rep):
 
 
 # ------------------------------------------------------------------ oracle case generators
-def gen_obs_list(rng, ty, cn, n):
+def gen_obs_list(rng, ty, cn, n, scale=None):
     """valid observations; RATIO totals positive (so that the summed total cannot vanish)"""
     out = []
     for _ in range(n):
-        v, t = gen_obs(rng, ty, cn)
+        v, t = gen_obs(rng, ty, cn, scale=scale)
         if ty == TY['ratio'] and t.startswith('-'):
             t = t[1:]
         out.append([v, t])
@@ -1229,12 +1720,14 @@ def gen_partition_case(rng, nmax, ty=None, allow_empty=True):
     ty = rng.choice([0, 1, 2, 3]) if ty is None else ty
     cn = rng.randint(1, 6)
     n = rng.randint(0, nmax)
-    obs = gen_obs_list(rng, ty, cn, n)
+    sc = pick_scale(rng)
+    obs = gen_obs_list(rng, ty, cn, n, sc)
     if ty == TY['ratio']:
         # keep the running total away from zero for get_result
         obs = [[v, t if not t.startswith('-') else t[1:]] for v, t in obs]
     tree = gen_tree(rng, n, 8, allow_empty=allow_empty)
-    return {'ty': ty, 'acc': rng.chance(0.5), 'cn': cn, 'obs': obs, 'tree': tree}
+    return {'ty': ty, 'acc': rng.chance(0.5), 'cn': cn, 'obs': obs, 'tree': tree, 'scale': list(sc),
+            'np': rng.below(1000) if rng.chance(0.35) else None}
 
 
 def gen_history_case(rng, ty=None, acc=None):
@@ -1243,13 +1736,14 @@ def gen_history_case(rng, ty=None, acc=None):
     cn = rng.randint(1, 5)
     k = rng.randint(2, 5)
     lo = 1 if ty == TY['misc'] else 0
-    chunks = [gen_obs_list(rng, ty, cn, rng.randint(lo, 4)) for _ in range(k)]
+    sc = pick_scale(rng)
+    chunks = [gen_obs_list(rng, ty, cn, rng.randint(lo, 4), sc) for _ in range(k)]
     if rng.chance(0.7) and not chunks[0]:
-        chunks[0] = gen_obs_list(rng, ty, cn, rng.randint(1, 3))
+        chunks[0] = gen_obs_list(rng, ty, cn, rng.randint(1, 3), sc)
     extras = {}
     for i in range(k):
         if rng.chance(0.35):
-            extras[str(i)] = gen_obs_list(rng, ty, cn, rng.randint(1, 2))
+            extras[str(i)] = gen_obs_list(rng, ty, cn, rng.randint(1, 2), sc)
 
     def build(ix):
         if len(ix) == 1:
@@ -1257,7 +1751,8 @@ def gen_history_case(rng, ty=None, acc=None):
         c = rng.randint(1, len(ix) - 1)
         return ['N', build(ix[:c]), build(ix[c:])]
 
-    return {'ty': ty, 'acc': acc, 'cn': cn, 'chunks': chunks, 'extras': extras, 'tree2': build(list(range(k)))}
+    return {'ty': ty, 'acc': acc, 'cn': cn, 'chunks': chunks, 'extras': extras, 'tree2': build(list(range(k))),
+            'scale': list(sc), 'np': rng.below(1000) if rng.chance(0.35) else None}
 
 
 def gen_mergeall_case(rng, nmax):
@@ -1266,9 +1761,10 @@ def gen_mergeall_case(rng, nmax):
     for nm in ['a', 'b', 'c'][:nn]:
         specs.append([nm, rng.choice([0, 1, 3, 0, 1, 3, 2]), rng.chance(0.3), rng.randint(1, 4)])
     n = rng.randint(1, nmax)
+    sc = pick_scale(rng)
     obs = {}
     for nm, ty, acc, cn in specs:
-        o = gen_obs_list(rng, ty, cn, n)
+        o = gen_obs_list(rng, ty, cn, n, sc)
         if ty == TY['ratio']:
             o = [[v, t[1:] if t.startswith('-') else t] for v, t in o]
         obs[nm] = o
@@ -1277,8 +1773,9 @@ def gen_mergeall_case(rng, nmax):
     prefix = {}
     if not into_empty and rng.chance(0.5):
         for nm, ty, acc, cn in specs:
-            prefix[nm] = [gen_obs_list(rng, ty, cn, rng.randint(1, 3)) for _ in range(rng.randint(1, 2))]
-    return {'specs': specs, 'obs': obs, 'tree': tree, 'into_empty': into_empty, 'prefix': prefix}
+            prefix[nm] = [gen_obs_list(rng, ty, cn, rng.randint(1, 3), sc) for _ in range(rng.randint(1, 2))]
+    return {'specs': specs, 'obs': obs, 'tree': tree, 'into_empty': into_empty, 'prefix': prefix,
+            'scale': list(sc), 'np': rng.below(1000) if rng.chance(0.35) else None}
 
 
 def gen_appendall_case(rng):
@@ -1301,6 +1798,7 @@ def gen_combine_case(rng, nunp=None, ty=None):
     specs = [[nm, rng.choice([0, 1, 2, 3]) if ty is None else ty, False, rng.randint(1, 4)]
              for nm in ['a', 'b'][:nn]]
     pools = [value_pool(rng) for _ in range(nunp)]
+    sc = pick_scale(rng)
     grids, cells, dtypes = [], [], []
     for _ in range(2):
         picked = [pick_values(rng, pl[1], pl[2], dup=0.0) for pl in pools]
@@ -1310,12 +1808,13 @@ def gen_combine_case(rng, nunp=None, ty=None):
             c[rn] = {}
             for combo in itertools.product(*grid):
                 lo = 1 if t == TY['misc'] else 0
-                c[rn][combo_key(combo)] = gen_obs_list(rng, t, cn, rng.randint(lo, 3))
+                c[rn][combo_key(combo)] = gen_obs_list(rng, t, cn, rng.randint(lo, 3), scale=sc)
         grids.append([[tok(v) for v in vs] for vs in grid])
         dtypes.append(''.join(pv[1] for pv in picked))
         cells.append(c)
     return {'specs': specs, 'pnames': pn, 'grids': grids, 'dtypes': dtypes, 'cells': cells, 'fixed': [['f', 3]],
-            'kinds': [pl[0] for pl in pools]}
+            'kinds': [pl[0] for pl in pools], 'np': rng.below(1000) if rng.chance(0.35) else None,
+            'use_add': rng.chance(0.5), 'scale': list(sc)}
 
 
 # ------------------------------------------------------------------ correspondence
@@ -1343,6 +1842,28 @@ def corr_scripts(ctx, drv, name, gen, count, long=False):
         im_c = im.canon()
         for kd in getattr(im, 'kinds', []):
             ctx.branch('script:values=' + kd)
+        if getattr(im, 'np_updates', 0):
+            ctx.branch('script:R1:np-scalars', im.np_updates)
+        sc = getattr(im, 'scale', (0, 0))
+        if max(sc) >= 20:
+            ctx.branch('script:R6:scale-1e12')
+        if min(sc) <= -20:
+            ctx.branch('script:R6:scale-1e-12')
+        for op in ops:
+            f = op.split(',')
+            if f[0] == 'sp' and len(f) > 4:
+                for ch in f[4]:
+                    if ch not in 'if':
+                        ctx.branch('script:R2:container-' + ch)
+        recv = {}
+        for op in ops:
+            f = op.split(',')
+            if f[0] in ('m', 'ma') and f[1] != f[2]:
+                recv.setdefault((f[0], f[2]), set()).add(f[1])
+        if any(len(v) >= 2 for (k0, _), v in recv.items() if k0 == 'm'):
+            ctx.branch('script:R7:result-merged-into-two')
+        if any(len(v) >= 2 for (k0, _), v in recv.items() if k0 == 'ma'):
+            ctx.branch('script:R7:resultset-operand-twice')
         for op in ops:
             ctx.branch('op:' + op.split(',')[0])
         batch.append('prog ' + ' '.join(ops))
@@ -1455,6 +1976,40 @@ def witnesses(ctx):
         ctx.branch('corpus')
 
 
+def note_case(ctx, case):
+    """branch counters of the robustness classes, computed from the input"""
+    if case.get('np') is not None:
+        ctx.branch('R1:np-scalars')
+    sc = case.get('scale') or [0, 0]
+    if sc[0] >= 20 or sc[1] >= 20:
+        ctx.branch('R6:scale-1e12')
+    if sc[0] <= -20 or sc[1] <= -20:
+        ctx.branch('R6:scale-1e-12')
+    obs = []
+    for key in ('obs', 'chunks'):
+        v = case.get(key)
+        if isinstance(v, list):
+            obs += [o for c in v for o in (c if c and isinstance(c[0], list) and isinstance(c[0][0], list) else [c])]
+    if any(isinstance(o, list) and o and o[0] == '0' for o in obs):
+        ctx.branch('R5:value-0')
+    if case.get('cn') == 1 and case.get('ty') == 3:
+        ctx.branch('R5:choice_num-1')
+    for d in (case.get('dtypes') or []):
+        for ch in (d or ''):
+            if ch not in 'if':
+                ctx.branch('R2:container-' + ch)
+    if 'grids' in case:
+        n = 1
+        for a, b in zip(case['grids'][0], case['grids'][1]):
+            n *= len(set(a) | set(b))
+        if n == 1:
+            ctx.branch('R5:single-combination')
+        if any(len(vs) == 0 for g in case['grids'] for vs in g):
+            ctx.branch('R5:empty-value-list')
+        if case.get('use_add'):
+            ctx.branch('R3:params-shared-with-caller')
+
+
 def oracles(ctx, quick):
     k = 4 if quick else 40
     nmax = 40 if quick else 150
@@ -1462,6 +2017,7 @@ def oracles(ctx, quick):
         case = gen_partition_case(ctx.rng, nmax)
         r = run_oracle(ctx, 'Result.merge', case, nontrivial=len(case['obs']) >= 2)
         ctx.branch('partition:' + TYN[case['ty']])
+        note_case(ctx, case)
     # MISC at full strength needs non-empty chunks: a dedicated stream without empty leaves
     for _ in range(100 * k):
         case = gen_partition_case(ctx.rng, nmax, ty=TY['misc'], allow_empty=False)
@@ -1472,8 +2028,16 @@ def oracles(ctx, quick):
                 case = gen_history_case(ctx.rng, ty, acc)
                 run_oracle(ctx, 'Result.merge/history', case)
                 ctx.branch('history:%s:acc=%d' % (TYN[ty], 1 if acc else 0))
+                ctx.branch('R7:chunk-in-three-accumulators')
+                note_case(ctx, case)
+    for _ in range(150 * k):
+        case = gen_rejected_case(ctx.rng)
+        run_oracle(ctx, 'rejected-call', case)
+        ctx.branch('rejected:%s:%s' % (case['kind'], case['why']))
     for _ in range(200 * k):
-        run_oracle(ctx, 'SimulationResults.merge_all_results', gen_mergeall_case(ctx.rng, 12 if quick else 40))
+        case = gen_mergeall_case(ctx.rng, 12 if quick else 40)
+        run_oracle(ctx, 'SimulationResults.merge_all_results', case)
+        note_case(ctx, case)
     for _ in range(100 * k):
         run_oracle(ctx, 'SimulationResults.append_all_results', gen_appendall_case(ctx.rng))
     for _ in range(150 * k):
@@ -1483,6 +2047,7 @@ def oracles(ctx, quick):
         for kd in case['kinds']:
             ctx.branch('combine:values=' + kd)
         ctx.branch('combine:class=' + grid_kind(case['grids']))
+        note_case(ctx, case)
 
 
 def exhaustive_small(ctx):
@@ -1534,6 +2099,15 @@ def check(ctx):
                              'partition:choice', 'combine:nunp=0', 'combine:nunp=2', 'combine:values=tiny', 'combine:values=big',
                              'combine:values=ulp', 'combine:values=mixed', 'combine:class=close-values',
                              'history:sum:acc=1', 'history:misc:acc=1', 'history:choice:acc=0', 'script:values=tiny',
+                             'R1:np-scalars', 'script:R1:np-scalars', 'R2:container-e', 'R2:container-l', 'R2:container-t',
+                             'R2:container-s', 'R2:container-r', 'R2:container-c', 'R2:container-b', 'script:R2:container-s',
+                             'R3:params-shared-with-caller', 'rejected:update:ratio-total-0', 'rejected:merge:choice_num',
+                             'rejected:merge:type', 'rejected:merge_all:type-in-later-name', 'rejected:merge_all:missing-name',
+                             'rejected:merge_all:nsr-type', 'rejected:combine:fixed-value', 'rejected:combine:result-names',
+                             'R5:value-0', 'R5:choice_num-1', 'R5:single-combination', 'R5:empty-value-list',
+                             'R6:scale-1e12', 'R6:scale-1e-12', 'script:R6:scale-1e12', 'script:R6:scale-1e-12',
+                             'R7:chunk-in-three-accumulators', 'script:R7:result-merged-into-two',
+                             'script:R7:resultset-operand-twice',
                              'script:values=big', 'script:values=ulp', 'script:values=mixed']
     try:
         correspondence(ctx, quick)
@@ -1556,6 +2130,8 @@ def search(ctx):
         run_oracle(ctx, 'Result.merge', gen_partition_case(ctx.rng, 60))
     for _ in range(3000):
         run_oracle(ctx, 'Result.merge/history', gen_history_case(ctx.rng))
+    for _ in range(2000):
+        run_oracle(ctx, 'rejected-call', gen_rejected_case(ctx.rng))
     for _ in range(1500):
         run_oracle(ctx, 'SimulationResults.merge_all_results', gen_mergeall_case(ctx.rng, 20))
     for _ in range(500):
